@@ -32,6 +32,7 @@ def gen(rng):
         if v != "none":
             stmts.append(f"  {v.split('-')[0]} :: {pn}")
     use_inc = rng.random() < 0.6
+    fragdecl = f"hfd{rng.randrange(1000)}"  # declared in a fragment that two scoping units of two files INCLUDE
     mod = ["module hostm", "  implicit none"] + (["  private"] if default_private else []) + decl + stmts + [
         "  interface",
         "    module subroutine sm_one(a)",
@@ -47,7 +48,9 @@ def gen(rng):
     for k, pn in enumerate(procs):
         mod += [f"  subroutine {pn}(x)", "    integer, intent(inout) :: x"]
         if use_inc and k == 0:
-            mod.append("    include 'hostfrag.inc'")
+            mod.append("    include 'hostdecl_inc.f90'")
+            mod.append("    include 'hostfrag_inc.f90'")
+            mod.append(f"    {fragdecl} = x")
         mod += [f"    x = x + {names[k % n]}", f"    {names[(k + 1) % n]} = x", f"  end subroutine {pn}"]
     mod.append("end module hostm")
     sub = ["submodule (hostm) hosts", "  implicit none", "  integer :: sub_local", "contains",
@@ -59,9 +62,23 @@ def gen(rng):
             f"    r = b + {names[0]}", f"    call {procs[1]}(r)", "  end function sm_two", "end submodule hosts"]
     files = {"hm/hostm.f90": "\n".join(mod) + "\n", "hs/hosts.f90": "\n".join(sub) + "\n"}
     if use_inc:
-        files["hm/hostfrag.inc"] = f"    {names[0]} = {names[0]} + 1\n    x = {names[-1]}\n"
+        files["hm/hostfrag_inc.f90"] = f"    {names[0]} = {names[0]} + 1\n    x = {names[-1]}\n"
+        files["hm/hostdecl_inc.f90"] = f"    integer :: {fragdecl}\n"
+        files["hm/hostother.f90"] = ("module hostother\n  implicit none\ncontains\n  subroutine other_user(z)\n    integer, intent(inout) :: z\n    include 'hostdecl_inc.f90'\n"
+                                     f"    {fragdecl} = z\n    z = {fragdecl} + 1\n  end subroutine other_user\nend module hostother\n")
+        vis_attr[fragdecl] = "fragment"
     files["hostuser.f90"] = "program hostuser\n  use hostm, only: sm_one, sm_two\n  implicit none\n  integer :: q\n  q = 1\n  call sm_one(q)\n  q = sm_two(q)\nend program hostuser\n"
-    return files, names + procs, vis_attr
+    return files, names + procs + ([fragdecl] if use_inc else []), vis_attr
+
+
+def declaration(files, name):
+    """(file, line, col, end) of the declaring occurrence: the `::` line of a variable or the SUBROUTINE header of a procedure"""
+    for f in sorted(files, key=lambda x: (not x.endswith("_inc.f90"), x)):
+        for ln, line in enumerate(files[f].split("\n")):
+            m = re.search(r"(?<![\w$])" + re.escape(name) + r"(?![\w$])", line.split("!")[0], re.I)
+            if m and ("::" in line[:m.start()] or re.match(r"\s*subroutine\s", line, re.I)) and not re.match(r"\s*(private|public)\b", line, re.I):
+                return (f, ln, m.start(), m.end())
+    return None
 
 
 def occurrences(files, name):
